@@ -15,7 +15,7 @@
 (* the run with status 1 (see [ex_link_occupant_fails]).                                              *)
 (* Proofs reuse the invariant [Inv] of Pipe/PlanExact.v.                                              *)
 From Coq Require Import Permutation Relations.
-From Tempren Require Import Base.Str Py.PathLib Py.PathLibProofs FS.Model FS.Lemmas FS.WfCheck Pipe.Pipeline Pipe.DestParent Pipe.PlanExact.
+From Tempren Require Import Base.Str Py.PathLib Py.PathLibProofs FS.Model FS.Lemmas FS.WfCheck Pipe.Pipeline Pipe.DestParent Pipe.BacklogVerify Pipe.PlanExact.
 Open Scope N_scope.
 
 (* ====================== definitions ================================================================== *)
@@ -581,6 +581,16 @@ Proof.
       destruct (dst_taken_by_occupant D f t blE _ m Hin I Sk L) as [f' [t' [I' [M' [S' [_ ND]]]]]].
       assert (O : occupies (f', RText t') (f, RText t)) by (split; [exact Sk | exact S']).
       destruct (Rd [] (f, RText t) blE _ eq_refl I' O) as [K|[]]. contradiction. }
+    assert (BV : backlog_verify fixed (w_fs w) (pf_dir f) (pf_rel f) (new_path f t) = None).
+    { assert (Sk : dst_key f t <> src_key f) by (apply (Mv (f, RText t)); left; reflexivity).
+      pose proof (plan_entry s plan OK _ Hin) as [_ [_ [_ [_ [Hwn _]]]]].
+      destruct (with_name_form _ _ Hwn) as [_ Hg].
+      assert (Hg' : pp_with_name (pf_rel f) t = Some (new_path f t)) by exact Hg.
+      destruct CH as [_ FV]. destruct (FV f t Hin Sk) as [Hlen _].
+      destruct (containment_ok c Cv s plan W OK D f t blE _ Hin I Hfree Hlen) as [Ct [Pc Sc]].
+      rewrite Cv in Ct.
+      apply backlog_verify_yes; [exact Ct | exact (dest_parent_test_with_name _ _ _ _ _ Hg' Sc) | exact Pc | exact Sc]. }
+    rewrite BV.
     destruct (renamer_free c Cm Cd Cf Cv s plan W OK D f t blE w Hin I Hfree) as [w1 R]. rewrite R.
     apply (IH w1 _ ((f, RText t) :: D)).
     + apply (renamer_step c Cm Cd Cf Cv s plan W OK D f t _ w w1 Hin I R).
